@@ -279,6 +279,15 @@ def discharge(ex, ops, outs, obligations, assumptions, obligations_fn=None, seed
                         if r3 == 'sat': cands = [rcore.snap_model(assume, o.bad_tol, xs, 5, seed), m3]
                         elif r1 == 'sat': cands = [m1]
                         got = try_confirm(cands, o.label)
+                        if got is None and xs:
+                            # z3's arbitrary model may be badly conditioned (magnitudes 1e-40 next to 1e12): look for a counterexample whose
+                            # inputs all lie in one three-decade band [s, 1000 s], where the property's tolerance / condition clauses apply
+                            s_ = z3.Real('band!s')
+                            band = [s_ > 0] + [z3.And(O.absv(x) >= s_, O.absv(x) <= 1000 * s_) for x in xs]
+                            if len(xs) <= 40:        # and well separated: two inputs are equal or differ by at least s/1000 (so that rounding to f64 keeps the model's structure)
+                                band += [z3.Or(xs[i] == xs[j], O.absv(xs[i] - xs[j]) >= s_ / 1000) for i in range(len(xs)) for j in range(i + 1, len(xs))]
+                            rb, mb = rcore.solve(st, assume + band, o.bad_tol, tcap, seed, stages=(2,))
+                            if rb == 'sat': got = try_confirm([mb], o.label)
                         if got is not None: break
                         status = 'undecided'
                         detail = ('solver %s on obligation %s' % (r3, o.label)) if r3 != 'sat' else \
